@@ -328,6 +328,18 @@ impl Vm {
     //@  ensures @unknown_member_is_an_attribute_error (old(self).top(arg_count as int) is ObjInstance && !old(self).inst_of(old(self).top(arg_count as int)).fields.view.dom().contains(name.id()) && !has_method(old(self).inst_of(old(self).top(arg_count as int)).class, name.id())) ==> final(self).raised == Some(ErrorKind::AttributeError) && final(self).called == old(self).called
     //@end
 
+    // Call n: the callee is the value n slots below the top (pushed BEFORE its arguments), called with exactly n arguments
+    //@fn file=yarel/src/vm.rs path=Vm::call_impl ret=r props=C07,C05
+    //@  requires old(self).next_byte < old(self).stack.len()
+    //@  ensures @the_callee_is_the_value_below_its_arguments final(self).called == Some((Callee::AnyValue(old(self).top(old(self).next_byte as int)), old(self).next_byte as usize)) && final(self).stack_at_call == old(self).stack
+    //@end
+    // Invoke name n: the same lookup as GetProperty + Call on the receiver n slots below the top (unit contract of invoke)
+    //@fn file=yarel/src/vm.rs path=Vm::invoke_impl ret=r props=C07
+    //@  requires old(self).wf(), old(self).next_byte < old(self).stack.len(), tables_ok()
+    //@  ensures old(self).same_heap(final(self))
+    //@  ensures @invoke_looks_the_operand_name_up_on_the_receiver_below_the_arguments (old(self).top(old(self).next_byte as int) is ObjInstance && !old(self).inst_of(old(self).top(old(self).next_byte as int)).fields.view.dom().contains(old(self).next_name) && closure_method(old(self).inst_of(old(self).top(old(self).next_byte as int)).class, old(self).next_name)) ==> final(self).called == Some((Callee::Closure(the_closure(old(self).inst_of(old(self).top(old(self).next_byte as int)).class, old(self).next_name)), old(self).next_byte as usize)) && final(self).stack_at_call == old(self).stack
+    //@end
+
     // IterNext (every `for` loop, once per iteration): the iterator on top of the stack is asked for its next element
     // EXACTLY as an explicit `it.next()` would — duplicated, then Invoke "next" with no arguments: own field first,
     // otherwise the method of its class, otherwise an AttributeError. (C18: a for loop over "any object offering the
